@@ -178,12 +178,45 @@ def foreign_execs(rng, scale):
     return out
 
 
+def own_td_execs(rng, scale):
+    """composable release of OWN memory at every age: allocations that make the allocator grow several times,
+    interleaved with try_deallocate_* of handles chosen at random among all live ones (also from blocks the
+    allocator has left behind)"""
+    out = []
+    for _ in range(int(10 * scale)):
+        fam = rng.choice(["stack", "stack", "pool", "coll", "iter"])
+        if fam == "stack":
+            h = gen.stack_header(rng, src=rng.choice(["grow", "grow", "static"]))
+            if h["src"] == "grow":
+                h["bs"] = rng.choice([64, 100, 128])
+            sizes = [1, 8, 16, 24, 40]
+        elif fam == "pool":
+            h = gen.pool_header(rng, src="grow")
+            sizes = [h["ns"]]
+        elif fam == "coll":
+            h = gen.coll_header(rng, src="grow")
+            sizes = [s for s in (8, 16, 32, 64) if s <= h["ns"]] or [h["ns"]]
+        else:
+            h = gen.iter_header(rng, src="grow")
+            sizes = [1, 4, 8]
+        h["member"] = 0
+        cmds = []
+        for i in range(rng.randint(20, 50)):
+            sz = rng.choice(sizes)
+            cmds.append("%s %d %d" % (rng.choice(["an", "an", "tn"]), sz, gen.alignment_for(sz, 8)))
+            if rng.random() < 0.35:
+                cmds.append("td %d" % rng.randint(0, 60))
+        out.append((h, cmds))
+    return out
+
+
 def jobs_c08(prop, tier, seed):
     rng = random.Random(seed * 7919 + 8)
     s = 1 if tier == "quick" else 60
     J = compose_jobs(COMPS_FB, ["base", "dbg"], 5 * s, 45, rng, "fallback")
     for cfg in ("rel", "base", "dbg"):
         J.append(Job(cfg, "seq", "SeqTrace", foreign_execs(rng, s), "foreign"))
+        J.append(Job(cfg, "seq", "SeqTrace", own_td_execs(rng, s), "owntd"))
     return J
 
 
